@@ -162,7 +162,7 @@ theorem drvStep_A {cfg : DrvCfg} (hp : PostAl cfg) {st st' : DrvSt} {idx : Nat} 
       unfold drvStep at h
       split at h
       · cases h; exact ⟨_, rfl⟩
-      · simp only [htokws] at h
+      · simp only at h
         cases h; exact ⟨_, rfl⟩
     obtain ⟨r, rfl⟩ := hst'
     refine ⟨⟨hg, k, ?_, ?_, ?_, ?_⟩, id, id⟩
